@@ -119,7 +119,7 @@ def convertible(content, img_on, adm_on):
 
 # ------------------------------------------------------------------------------------------- generators
 
-VALUES = ["x", "a b", "10px", "50%", "left", "", "a#b", "# c", 'say "hi"', "it's", "a: b", "- dash", "> gt", "| pipe", "{curly}", "[sq]", "é ü", "a\\b", "`tick`", "*star*", "100", "true", "null", "~", "a,b", "a;b", "&amp;", "x&#35;y", "tab\there", "&lt;b&gt;"]
+VALUES = ["x", "a b", "10px", "50%", "left", "", "a#b", "# c", 'say "hi"', "it's", "a: b", "- dash", "> gt", "| pipe", "{curly}", "[sq]", "é ü", "a\\b", "`tick`", "*star*", "100", "true", "null", "~", "a,b", "a;b", "&amp;", "x&#35;y", "tab\there", "&lt;b&gt;", "😀 smile", "𝒜-math", "a😀", "日本 語", "x\u2028y", "x\u0085y", "x\u2029 y", "\u00a0nbsp", "a\u200bb", "\ufeffbom", "e\u0301"]
 ATTRS_IMG = ["class", "alt", "height", "width", "align", "name"]
 OTHER_ATTRS = ["id", "title", "style", "data-x", "loading"]
 
